@@ -264,6 +264,44 @@ def check_solver_path(p, name, c):
         )
 
 
+HISTORY_SRC = """
+def cnf_history_problems(c):
+    # the CNF handed out for a circuit is the caller's to extend (e.g. blocking clauses while enumerating models);
+    # a later transformation of the same (or an identical) circuit must be the plain Tseytin transformation again
+    from cirbo.sat.cnf import Cnf, tseytin_transformation
+    from cirbo.sat import is_circuit_satisfiable
+    from vlib import circ
+    bad = []
+    fresh = [list(cl) for cl in tseytin_transformation(c).get_raw()]
+    first = Cnf.from_circuit(c)
+    before = is_circuit_satisfiable(c).answer
+    nv = max([abs(l) for cl in first.get_raw() for l in cl] + [1])
+    first.add_clause([nv])
+    first.add_clause([-nv])
+    for l in range(1, min(nv, 3) + 1):
+        first.add_clause([-l])
+    again = [list(cl) for cl in Cnf.from_circuit(c).get_raw()]
+    if again != fresh:
+        bad.append('Cnf.from_circuit after the caller extended an earlier result differs from the Tseytin transformation')
+    if [list(cl) for cl in tseytin_transformation(c).get_raw()] != fresh:
+        bad.append('tseytin_transformation is not repeatable')
+    if is_circuit_satisfiable(c).answer != before:
+        bad.append('is_circuit_satisfiable changed its answer after an earlier CNF of the circuit was extended')
+    return bad
+"""
+exec(HISTORY_SRC)  # noqa: S102
+
+
+def check_cnf_history(p, name, c):
+    p.case(("cnf-history", circ.snapshot(c)[:3]))
+    try:
+        bad = cnf_history_problems(c)  # noqa: F821
+    except Exception as e:  # noqa: BLE001
+        bad = [f"raised {type(e).__name__}: {e}"]
+    if bad:
+        p.violation("tseytin:history", f"{bad[:2]} for {short(c)}", REPLAY_PRELUDE + circ.circ_src(c) + HISTORY_SRC + "\nbad=cnf_history_problems(c)\nprint(bad); sys.exit(1 if bad else 0)\n")
+
+
 def selections(c, rnd, thorough):
     m = len(c.outputs)
     sels = [None]
@@ -299,6 +337,7 @@ def unit(p, item, tier, seed):
             for sel in selections(c, rnd, thorough):
                 check_encoding(p, "feature:" + name, c, sel)
             check_solver_path(p, name, c)
+            check_cnf_history(p, name, c)
     elif kind == "large":
         # circuits of a size at which a traversal may switch strategy (recursion depth, explicit stacks):
         # operands come mostly from recent gates, so the output cone is deep and reconvergent
@@ -326,6 +365,7 @@ def unit(p, item, tier, seed):
                 check_encoding(p, f"seeded[{s}:{i}]", c, sel)
             if i % 2 == 0:
                 check_solver_path(p, f"seeded[{s}:{i}]", c)
+                check_cnf_history(p, f"seeded[{s}:{i}]", c)
 
 
 def run(rep, tier, seed, only=None):
